@@ -64,8 +64,12 @@ def _write_evidence(mod, tier, seed, agg, wall, n_unlisted, extra_cov=None):
         "wall_s": round(wall, 3),
         "violations": n_unlisted,
     }
-    os.makedirs(os.path.join(H.VERIF_ROOT, "evidence"), exist_ok=True)
-    path = os.path.join(H.VERIF_ROOT, "evidence", f"{mod.PROPERTY}.json")
+    # evidence under /verif/evidence always describes /repo itself; runs against a scratch tree (VERIF_REPO, used to
+    # test the checks against seeded changes) write theirs elsewhere
+    evdir = os.environ.get("VERIF_EVIDENCE_DIR") or (os.path.join(H.VERIF_ROOT, "evidence") if os.path.realpath(H.REPO) == "/repo"
+                                                      else os.path.join("/tmp", "verif-evidence-scratch"))
+    os.makedirs(evdir, exist_ok=True)
+    path = os.path.join(evdir, f"{mod.PROPERTY}.json")
     tmp = path + ".tmp"
     with open(tmp, "w", encoding="utf-8") as f:
         f.write(H.jdump(ev, indent=1))
